@@ -83,7 +83,7 @@ def handle : List String → Option String
     let diskF : Str → Option Nat := fun p => ((disk.find? (·.1 = p)).map (·.2)).join
     let s : Sets Str := { updated := (← unhexList upd).map cps, deleted := (← unhexList del).map cps }
     let paths := (← unhexList paths).map cps
-    pure s!"watch={appliedStr (watchApplied nodeF diskF s)} pruned={hexList ((sortStrs (prunedUpdated nodeF diskF s)).map ofCps)} restart={appliedStr (restartApplied paths nodeF diskF)}"
+    pure s!"watch={appliedStr (watchApplied nodeF diskF s)} pruned={hexList ((sortStrs (prunedUpdated nodeF diskF s)).map ofCps)} deleted={hexList ((sortStrs (finalDeleted nodeF diskF s)).map ofCps)} restart={appliedStr (restartApplied paths nodeF diskF)}"
   | _ => none
 
 end StepupModel.Drv.C14
